@@ -28,6 +28,8 @@ type summary struct {
 	Prop          string            `json:"prop"`
 	Seed          uint64            `json:"seed"`
 	Tier          string            `json:"tier"`
+	From          int               `json:"from"`
+	Stride        int               `json:"stride"`
 	Evaluations   int               `json:"evaluations"`
 	Systematic    int               `json:"systematic_done"`
 	Nontrivial    int               `json:"nontrivial"`
@@ -130,7 +132,10 @@ func main() {
 	}
 
 	plan := p.Plan(*tier)
-	s := summary{Prop: p.ID(), Seed: *seed, Tier: *tier, Faults: map[string]int{}, Probes: map[string]int{},
+	if *stride < 1 {
+		*stride = 1
+	}
+	s := summary{Prop: p.ID(), Seed: *seed, Tier: *tier, From: *from, Stride: *stride, Faults: map[string]int{}, Probes: map[string]int{},
 		SigCounts: map[string]int{}, Unclaimed: map[string]int{}}
 	fps := map[uint64]struct{}{}
 	ils := map[uint64]struct{}{}
